@@ -291,6 +291,13 @@ def run(ctx):
                 # an element of the split result, whichever way it is addressed (range-for, iterator, index)
                 ok_ = re.match(r"^elem\(Oomd::Util::split\(param:\w+, 47\)\)$", a) is not None or \
                     re.match(r"^Oomd::Util::split\(param:\w+, 47\)(\[[^\[\]]*\]|\.at\([^()]*\))$", a) is not None
+            elif nm in ("insert", "assign", "append_range", "insert_range") and len(f.nodes[i].get("args", [])) >= 2:
+                # a whole range appended at once: [split(..).begin(), split(..).end()) (move iterators or not), at the vector's end
+                aa = [re.sub(r"^std::make_move_iterator\((.*)\)$", r"\1", Xc(x)) for x in f.nodes[i]["args"]]
+                rng = aa[-2:]
+                SPL = r"Oomd::Util::split\(param:\w+, 47\)"
+                ok_ = re.match(r"^%s\.c?begin\(\)$" % SPL, rng[0]) is not None and re.match(r"^%s\.c?end\(\)$" % SPL, rng[1]) is not None and \
+                    (nm != "insert" or re.search(r"cgroup_path_\.c?end\(\)\)?$", aa[0]) is not None)
             else:
                 ok_ = False
             ctx.check(ok_, "components-come-from-split:%s@%s:%d" % (f.name, nm, n_.get("line", 0)), "who-may-write + provenance", f.loc(i),
